@@ -101,7 +101,7 @@ CLAIMED = {
          "C15_usbtmc_in_limited assumes the device never exceeds the requested TransferSize (the _served form does not).",
     technique="executable Gallina codecs; induction, round-trip, soundness and simulation proofs; finite CRC sweeps; translator-fed layout theorem; differential testing"),
  "C12": dict(category="proof", design_ref="7 (C12)",
-    text="13 Coq theorems (all closed); 9 over ALL finite operation-and-fault histories of an executable model of the context and singleton lifecycle (exception monad with catch exactly where "
+    text="15 Coq theorems (all closed); 11 over ALL finite operation-and-fault histories (fault inputs carry their exception class: Exception-like / BaseException-only) of an executable model of the context and singleton lifecycle (exception monad with catch exactly where "
          "the code has try/except-log): table invariant (unique names, no reservation left, handlers = live names, one worker thread per live object, nothing released twice), duplicate "
          "refused without change, rollback after a failed constructor, remove, stop reclaims everything whatever stop handlers or release steps raise, failed start leaves nothing "
          "behind at QMI_Context and qmi.start level (proved for the repaired behaviour, refuted by witness for the pinned tree); 4 for an operation of another thread racing with stop() "
@@ -110,7 +110,7 @@ CLAIMED = {
          "under the deterministic scheduler with the fake network and injected constructor/release/stop-handler/bind/peer faults; after every operation exception class, live QMI "
          "threads, handler and object maps, sockets, singleton, release and stop-handler logs are compared step by step with the model (1.6k history-schedule pairs quick, 26k thorough).",
     note="Trusted: Coq kernel+vm_compute; hand-transcribed model; dsched fake loop/network; harness stubs; the concurrent clause is weaker than the sequential ones (finite instances, one racing operation, sampled schedules with line-level yields + DFS with <= 2 preemptions; "
-         "make||make, remove||remove and races with start are not covered). The failed-start defect and the make||stop registration race (singleton stuck, threads and ports leaked) found here were repaired by fix: commits.",
+         "make||make, remove||remove and races with start are not covered). The failed-start defect, the make||stop registration race and stop() aborted by a BaseException-only stop handler (singleton stuck, threads and ports leaked) found here were repaired by fix: commits.",
     technique="inductive invariant over histories with an exception monad + finite LTS reflection for the concurrent clause + observation/trace correspondence under dsched"),
  "C19": dict(category="proof", design_ref="7 (C19)",
     text="5 generic Coq theorems (all closed): the abstract post analyser of the open/close effect language is sound AND complete for every fault placement; if the boolean conditions "
